@@ -68,7 +68,11 @@ class SweepGen:
         if kind == 'zip_longest' and any(len(p[0]) == 0 for p in parts):
             kind = 'zip'
         cls = {'product': cirq.Product, 'zip': cirq.Zip, 'zip_longest': cirq.ZipLongest, 'concat': cirq.Concat}[kind]
-        obj = cls(*[p[0] for p in parts])
+        if len(parts) == 2 and kind in ('product', 'zip') and r.random() < 0.4 and not any(type(p[0]) is cirq.Zip and len(p[0].sweeps) == 0 for p in parts):
+            # the operator forms (an operand that is a ZipLongest / Concat must stay one operand)
+            obj = parts[0][0] * parts[1][0] if kind == 'product' else parts[0][0] + parts[1][0]
+        else:
+            obj = cls(*[p[0] for p in parts])
         if not parts:
             lean = {'k': 'unit'} if kind == 'product' else {'k': 'empty'}
         else:
@@ -399,8 +403,13 @@ def check_compose(ctx, cirq, sympy, n):
             continue
         # and it acts like resolving twice on an expression
         e, _ = rand_expr(rng, sympy, names, 2)
-        twice = r2.value_of(r1.value_of(e, recursive=False), recursive=False)
-        once = comp.value_of(e, recursive=False)
+        try:
+            twice = r2.value_of(r1.value_of(e, recursive=False), recursive=False)
+            once = comp.value_of(e, recursive=False)
+            pw = cirq.ParamResolver({'a': sympy.Symbol('b')}).value_of(sympy.Float(2.0) ** sympy.Symbol('a'), recursive=False)
+        except TypeError as ex:
+            ctx.report_witness('resolve:partial-power', f'partial resolution raises TypeError: {str(ex)[:80]}', dict(rep, impl_out=[str(ex)[:200], sympy.srepr(e)], spec_out=['the partially resolved expression']))
+            continue
         env = {sympy.Symbol(nm): 0.7 + i for i, nm in enumerate(names)}
         v1 = complex(twice.subs(env)) if hasattr(twice, 'subs') else complex(twice)
         v2 = complex(once.subs(env)) if hasattr(once, 'subs') else complex(once)
